@@ -489,6 +489,47 @@ fn eval_client(c: &Case) -> (Vec<Finding>, String) {
     (fs, outcome)
 }
 
+/// Relying parties whose identifiers stand in a relation: a credential filed under the text
+/// base64url(SHA-256(R)) - where U2F registrations for the application parameter SHA-256(R) live -
+/// or under hex(SHA-256(R)), R in upper case, R reversed, is a credential of ANOTHER relying party
+/// as far as a CTAP2 request for R is concerned (rel 0..3); rel 4: registered through the U2F API
+/// with application = SHA-256(R) on the same authenticator.
+fn related_rp_one(rel: u8, with_own: bool) -> Vec<(String, String)> {
+    use passkey_authenticator::U2fApi;
+    let r = "a.example";
+    let h = crate::oracles::rp::sha256(r.as_bytes());
+    let other_rp = match rel {
+        0 | 4 => crate::oracles::b64::url_nopad(&h),
+        1 => hex(&h),
+        2 => r.to_ascii_uppercase(),
+        _ => r.chars().rev().collect(),
+    };
+    let handle = ident(2);
+    let mut items = vec![];
+    if with_own {
+        items.push(seeded(&Seed { n: 1, rp: r.into(), handle: Some(vec![1]), counter: Some(1), hmac: None }));
+    }
+    if rel != 4 {
+        let mut p = seeded(&Seed { n: 3, rp: other_rp.clone(), handle: None, counter: Some(0), hmac: None });
+        p.credential_id = handle.clone().into();
+        items.push(p);
+    }
+    let store = Shared::new(RefStore::with(items));
+    let mut auth = Authenticator::new(Aaguid::new_empty(), store.clone(), ScriptedUv::consenting(Log::new()));
+    let res = par::catch(|| {
+        if rel == 4 {
+            let app: [u8; 32] = h.clone().try_into().unwrap();
+            let _ = block_on(U2fApi::register(&mut auth, passkey_types::u2f::RegisterRequest { challenge: [1; 32], application: app }, &handle));
+        }
+        block_on(auth.get_assertion(ga_request(r, Some(vec![handle.clone()]), false, true, true, false, None))).map(|x| x.credential.map(|d| d.id.to_vec()))
+    });
+    match res {
+        Err(p) => vec![("panic".into(), p)],
+        Ok(Ok(used)) => vec![("credential-of-other-rp".into(), format!("an assertion for {r:?} whose allow list names only a credential filed under {other_rp:?} was produced (credential {:?})", used.map(|u| hex(&u))))],
+        Ok(Err(_)) => vec![],
+    }
+}
+
 pub fn eval(c: &Case) -> (Vec<Finding>, String) {
     if c.op.starts_with("store:") {
         eval_store(c)
@@ -595,6 +636,15 @@ fn contention(stats: &mut Stats) -> Result<(u64, u64), String> {
 }
 
 pub fn run(ctx: &Ctx) -> Result<Run, String> {
+    let mut related = Stats::new();
+    for rel in 0..5u8 {
+        for with_own in [false, true] {
+            related.case(&("related-rp", rel, with_own), true, "related-rp");
+            for (k, d) in related_rp_one(rel, with_own) {
+                related.finding(Finding::new(format!("related-rp/kind={k}"), d, json!({"related_rp": {"rel": rel, "with_own": with_own}})));
+            }
+        }
+    }
     let cs = cases(ctx.tier);
     let mut stats = par::sweep_cases(&cs, ctx.threads, |c, st| {
         let (fs, o) = eval(c);
@@ -609,6 +659,7 @@ pub fn run(ctx: &Ctx) -> Result<Run, String> {
     // with different keys (for different RPs) on one thread
     let cst = super::inst::colliding_sweep("shared-state");
     stats.merge(cst);
+    stats.merge(related);
     // part D: a store and user-validation method with their own item type whose conversion can fail
     for (order, locked, list) in super::vault::cases() {
         stats.case(&(&order, locked, list), true, "vault");
@@ -619,7 +670,7 @@ pub fn run(ctx: &Ctx) -> Result<Run, String> {
     let n = cs.len() as u64 + csched;
     let mut run = Run::from_stats(
         "model_checking",
-        "universe of 4 credentials (2 RPs x 2, equal user handles across RPs): all 16 store contents x RP in {a, b, RP without credentials, a in another letter case, a with a trailing dot} x lists {absent, empty, sub-lists of the 4 ids + 1 unknown id (size <= 2 in both orders quick, all 31 thorough), and ids in a value relation to a held id (a strict prefix of it, it plus one byte, the empty id, its base64url / hex / padded base64 text as bytes, the id reversed) alone and next to each of the 4 ids, and lists of 64..129 entries in which a held id sits behind, in front of or between runs of 64 unknown ids} x transports hints on the descriptors {none, disjoint from the authenticator's, overlapping, mixed, empty} x {no extension, PRF inputs per credential naming every id of the universe on an hmac-secret authenticator} x listing order {newest, oldest first} for get_assertion (allow list) and make_credential (exclude list; also with an unsupported-only / empty algorithm list and with pin-auth: credential-excluded still exactly when a held credential is named) on the real Authenticator over the contract store; the same contents x lists x RPs {a, b, none} x listing orders one level up, as allowCredentials / excludeCredentials of WebAuthn requests through a real Client from an origin of the RP; and the same contents/lists/RPs against find_credentials of MemoryStore, Option<Passkey> and their four lock wrappers (wrappers compared with the store they wrap); plus every interleaving of a registration whose exclude list names a held credential with a concurrent assertion over Arc<Mutex<_>> and Arc<RwLock<_>> (must be refused in every schedule). Non-trivial = distinct case with a non-empty store",
+        "relying parties with related identifiers: a credential filed under base64url / hex of SHA-256(R), R in upper case or reversed, or registered through the U2F API with application SHA-256(R), is not used for a CTAP2 request for R that names it; universe of 4 credentials (2 RPs x 2, equal user handles across RPs): all 16 store contents x RP in {a, b, RP without credentials, a in another letter case, a with a trailing dot} x lists {absent, empty, sub-lists of the 4 ids + 1 unknown id (size <= 2 in both orders quick, all 31 thorough), and ids in a value relation to a held id (a strict prefix of it, it plus one byte, the empty id, its base64url / hex / padded base64 text as bytes, the id reversed) alone and next to each of the 4 ids, and lists of 64..129 entries in which a held id sits behind, in front of or between runs of 64 unknown ids} x transports hints on the descriptors {none, disjoint from the authenticator's, overlapping, mixed, empty} x {no extension, PRF inputs per credential naming every id of the universe on an hmac-secret authenticator} x listing order {newest, oldest first} for get_assertion (allow list) and make_credential (exclude list; also with an unsupported-only / empty algorithm list and with pin-auth: credential-excluded still exactly when a held credential is named) on the real Authenticator over the contract store; the same contents x lists x RPs {a, b, none} x listing orders one level up, as allowCredentials / excludeCredentials of WebAuthn requests through a real Client from an origin of the RP; and the same contents/lists/RPs against find_credentials of MemoryStore, Option<Passkey> and their four lock wrappers (wrappers compared with the store they wrap); plus every interleaving of a registration whose exclude list names a held credential with a concurrent assertion over Arc<Mutex<_>> and Arc<RwLock<_>> (must be refused in every schedule). Non-trivial = distinct case with a non-empty store",
         true,
         stats,
     );
@@ -629,6 +680,9 @@ pub fn run(ctx: &Ctx) -> Result<Run, String> {
 }
 
 pub fn replay(_ctx: &Ctx, case: &Value) -> Result<Vec<Finding>, String> {
+    if let Some(r) = case.get("related_rp") {
+        return Ok(related_rp_one(r["rel"].as_u64().unwrap_or(0) as u8, r["with_own"].as_bool().unwrap_or(false)).into_iter().map(|(k, d)| Finding::new(format!("related-rp/kind={k}"), d, case.clone())).collect());
+    }
     if let Some(fs) = super::inst::colliding_replay(case, "shared-state") {
         return Ok(fs);
     }
